@@ -304,6 +304,11 @@ func assignOne(destValue reflect.Value, taken any, to string) (reflect.Value, er
 			if !valueValue.IsValid() {
 				valueValue = newInstanceByType(destValue.Type().Elem())
 				destValue.SetMapIndex(keyValue, valueValue)
+			} else if !valueValue.CanAddr() {
+				// an element read back from a map is not addressable: continue on a copy, it is stored again below
+				addressable := reflect.New(valueValue.Type()).Elem()
+				addressable.Set(valueValue)
+				valueValue = addressable
 			}
 
 			if parentMap.IsValid() {
